@@ -55,3 +55,27 @@ def peek_then_walk(rows, cols):
     pairs = _pairs(rows, cols)
     head = next(pairs, None)
     return head, [p for p in pairs]
+
+
+def scan_resumed_in_outer_loop(D, rows, cols, targets):
+    # for every target ALL pairs are to be scanned, but the generator is made once: the scan of the second target starts behind
+    # the pair at which the first one stopped
+    pairs = _pairs(rows, cols)
+    hits = []
+    for t in targets:
+        for r, c in pairs:   # IT-ONCE: resumed, not restarted
+            if D[r, c] >= t:
+                hits.append((t, r, c))
+                break
+    return hits
+
+
+def scan_restarted_in_outer_loop(D, rows, cols, targets):
+    # clean twin: a new generator for every target
+    hits = []
+    for t in targets:
+        for r, c in _pairs(rows, cols):
+            if D[r, c] >= t:
+                hits.append((t, r, c))
+                break
+    return hits
